@@ -183,4 +183,11 @@ def mul_cases(cv, rng, quick):
     for _ in range(4 if quick else 20):
         gt.append("gt_exp_sim %s 0 %s %s %s %s" % (c, el(), hx(rng.choice(S)), el(), hx(rng.choice(S))))
     gt.append("gt_exp_sim %s 0 %s 0 %s %s" % (c, el(), el(), hx(rng.choice(S))))
+    # one exponent trivial (0 or a multiple of r), the other short / sparse, even and odd (the routine falls back to a
+    # single exponentiation there)
+    for z in (0, n, 2 * n):
+        for k in [6, 8, 2, 7, 1 << 63, (1 << 64) - 2, (1 << 100) + (1 << 7), -((1 << 70) + 8), -6][: (5 if quick and z else 9)]:
+            gt.append("gt_exp_sim %s 0 %s %s %s %s" % (c, el(), hx(z), el(), hx(k)))
+            if z == 0 or not quick:
+                gt.append("gt_exp_sim %s 0 %s %s %s %s" % (c, el(), hx(k), el(), hx(z)))
     return g1, g2, gt
